@@ -29,6 +29,18 @@ META = {
 }
 
 
+def _is_type(ty, short):
+    """ty is (a reference to) the type whose last path segment is `short` - not a type that merely mentions it as an argument"""
+    ty = re.sub(r'^&(mut )?', '', ty or '')
+    m = re.search(r'(^|::)%s(<|$)' % re.escape(short), ty)
+    while m:
+        pre = ty[:m.start()]
+        if pre.count('<') == pre.count('>'):
+            return True
+        m = re.search(r'(^|::)%s(<|$)' % re.escape(short), ty[m.end():]) and None
+    return False
+
+
 def check(fx, rep, tier):
     rep.rule('R04.1', 'decode target of receive_reply: untagged enum; attempts ordered standard error, caller error, catch-all, success (last)')
     rep.rule('R04.2', 'an object with an `error` member cannot reach the success shape: catch-all with required any-value `error` member before it, or success type denies unknown members')
@@ -48,12 +60,17 @@ def check(fx, rep, tier):
         for b, t in co.iter_terms('call'):
             d = t['callee'].get('def') or ''
             if RC in d and t['callee'].get('name') not in ('receive_reply',) and t['callee'].get('args'):
-                m = re.findall(r"([A-Za-z_][\w:<>' ,{}#]*::ReplyMsg|[\w:<>' ,{}#]+::\{closure#0\}::\w+)", t['callee']['args'])
+                cands = []
                 for p, a in crate.adts.items():
-                    if p.startswith(rr[0].path.replace('::<Read>', '<Read>')) or p.startswith('connection::read_connection::ReadConnection<Read>::receive_reply'):
-                        short = p.split('::')[-1]
-                        if a.get('kind') == 'Enum' and not a.get('mac') and re.search(r'\b%s\b' % re.escape(short), t['callee']['args']):
-                            target = (p, a, b)
+                    short = p.split('::')[-1]
+                    if a.get('kind') == 'Enum' and not a.get('mac') and re.search(r'\b%s\b' % re.escape(short), t['callee']['args']):
+                        local = p.startswith(rr[0].path.replace('::<Read>', '<Read>')) or p.startswith('connection::read_connection::ReadConnection<Read>::receive_reply')
+                        module = p.startswith('connection::read_connection::') or p.startswith('connection::')
+                        if local or module:
+                            cands.append((0 if local else 1, p, a))
+                if cands:
+                    cands.sort(key=lambda x: x[0])
+                    target = (cands[0][1], cands[0][2], b)
         if target is None:
             rep.bad('R04.1', '%s|decode-target|%s' % (fk, cfg), co.where(), 'the enum receive_reply decodes the frame into was not found (anchor: generic argument of the message reader call)')
             continue
@@ -69,6 +86,10 @@ def check(fx, rep, tier):
             for st in it.get('body') or []:
                 if isinstance(st, dict) and st.get('k') == 'items':
                     items.extend(st['items'])
+        # the same items may live at module level (moved out of the function): file-level structs / enums of the module
+        for fname, f in fx.tpl.files.items():
+            if fname.endswith('connection/read_connection.rs'):
+                items.extend(i for i in f['items'] if i.get('k') in ('enum', 'struct'))
         synt = {i['name']: i for i in items if i.get('k') in ('enum', 'struct')}
         en = synt.get(short)
         if en is None:
@@ -180,7 +201,7 @@ def check(fx, rep, tier):
         # R04.3 bypass: any zlink / serde / serde_json function instantiated with the bare success shape as a type argument
         bad = []
         n_dec = 0
-        for body in crate.bodies:
+        for body in crate.raw_bodies:     # who-may-instantiate rule: the calls as written (a helper inlined by the normal form has no call site left)
             if body.in_test or body.mac or not (body.path.startswith('connection::')):
                 continue
             if 'write_connection' in body.path:
@@ -211,23 +232,37 @@ def check(fx, rep, tier):
                   'a frame can be decoded directly as the success shape, bypassing the error classification: %s' % bad)
         # R04.4 arms
         msw = None
-        for sw in range(co.n):
-            if co.is_cleanup(sw) or co.term(sw)['k'] != 'switch':
-                continue
-            info = co.switch_info(sw)
-            if info and info.get('kind') == 'discr' and short in (info['place'].get('ty') or ''):
-                msw = (sw, info)
+        co_rr = co
+        # the classification match: in receive_reply itself or in a function of the module it hands the decoded value to
+        for cand in [co] + [b for b in crate.bodies if not b.in_test and b is not co and (b.file or '').endswith('connection/read_connection.rs')]:
+            for sw in range(cand.n):
+                if cand.is_cleanup(sw) or cand.term(sw)['k'] != 'switch':
+                    continue
+                info = cand.switch_info(sw)
+                pty = (info['place'].get('ty') or '') if info and info.get('kind') == 'discr' else ''
+                if info and info.get('kind') == 'discr' and _is_type(pty, short) and len(info['arms']) >= 2:
+                    msw = (sw, info)
+                    co = cand
+            if msw is not None:
+                break
         if msw is None:
             rep.bad('R04.4', '%s|match|%s' % (fk, cfg), co.where(), 'match on the decoded %s not found' % short)
             continue
         sw, info = msw
         rets = set(co.returns())
+        ret_locals = {0}
+        for b_, i_, s_ in co.iter_assigns():
+            if s_['place']['l'] == 0 and not s_['place'].get('p') and s_['rv']['k'] == 'use' and op_place(s_['rv']['op']) and not op_place(s_['rv']['op']).get('p'):
+                ret_locals.add(op_place(s_['rv']['op'])['l'])
+        covered = set(info['arms'].keys())
         for i, (name, role, ty) in enumerate(roles):
             tgt = info['arms'].get(i)
+            if tgt is None and len(covered) == len(roles) - 1 and co.term(info['otherwise'])['k'] != 'unreachable':
+                tgt = info['otherwise']         # the last variant is the `otherwise` edge of the switch
             if tgt is None:
                 rep.bad('R04.4', '%s|arm-%s|%s' % (fk, role, cfg), C.where(co, sw), 'no arm for variant %s' % name)
                 continue
-            others = {t2 for j, t2 in info['arms'].items() if j != i}
+            others = {t2 for j, t2 in info['arms'].items() if j != i} | ({info['otherwise']} if tgt != info['otherwise'] else set())
             region = co.reachable(tgt, avoid=set())
             # blocks exclusive to this arm: reachable from tgt but not from the other arms' targets before the join
             excl = {b for b in region if not any(b in co.reachable(o) for o in others)}
@@ -238,7 +273,7 @@ def check(fx, rep, tier):
                     if s['k'] != 'assign':
                         continue
                     rv = s['rv']
-                    if rv['k'] == 'aggr' and rv.get('adt', '').endswith('result::Result') and s['place']['l'] == 0:
+                    if rv['k'] == 'aggr' and rv.get('adt', '').endswith('result::Result') and s['place']['l'] in ret_locals and not s['place'].get('p'):
                         outer = rv.get('variant')
                         tr = co.trace(rv['ops'][0])
                         if tr.get('kind') == 'aggr':
